@@ -3219,6 +3219,18 @@ impl KotoVm {
         // Captures and temp tuple values are placed in the registers following the arguments
         apply_captures(&mut generator_vm.registers, f);
 
+        if !self.call_stack.is_empty() {
+            // Generator calls don't use the push/pop frame mechanism in the calling VM,
+            // so drop the call args here now that they've been copied into the generator VM,
+            self.truncate_registers(call_info.frame_base);
+            // Ensure that the calling frame still has the required number of registers
+            // (unpacking packed arguments may have removed registers from the stack).
+            let min_frame_registers = self.register_index(self.frame().required_registers);
+            if self.registers.len() < min_frame_registers {
+                self.registers.resize(min_frame_registers, KValue::Null);
+            }
+        }
+
         // Move the generator vm into an iterator and then place it in the result register
         if let Some(result_register) = call_info.result_register {
             self.set_register(result_register, KIterator::with_vm(generator_vm).into());
